@@ -1,5 +1,3 @@
-//verif:v2only (root-module instantiation pending: API differences)
-
 package codecprops
 
 // C11 - schema validity constraints are enforced when encoding and when decoding.
@@ -525,6 +523,22 @@ func TestC11PartialUpdates(t *testing.T) {
 				}
 			}
 		}
+	}
+	rec.Exhaustive("partial-update assignments {delete,set,nested}^fields x exclusion specs", evaluated)
+	tl.flush(t)
+}
+
+// TestC11PatchDeleteRequired: a partial update document whose $delete list names a required field is rejected
+// (its own test function so that a job can select it separately; enumerated once, by shard 0).
+func TestC11PatchDeleteRequired(t *testing.T) {
+	if i, _ := hx.ShardIndex(); i != 0 {
+		t.Skip()
+	}
+	rec := stats.For("C11")
+	tl := &c11Tally{rec, map[string]int{}, map[string]c11Case{}, map[string]string{}}
+	var evaluated int64
+	for _, full := range patchRecords {
+		n := S.Lookup(*typeByName(full).Ref)
 		// deleting a required field, and unknown names in $delete
 		for _, f := range S.AllFields(n) {
 			if !f.Required() {
@@ -549,6 +563,6 @@ func TestC11PartialUpdates(t *testing.T) {
 			}
 		}
 	}
-	rec.Exhaustive("partial-update assignments {delete,set,nested}^fields x exclusion specs", evaluated)
+	rec.Exhaustive("partial updates deleting one required field", evaluated)
 	tl.flush(t)
 }
